@@ -47,6 +47,12 @@ impl<'a> IrEmitter<'a> {
                     let arg_expr = self.emit_expr(e)?;
                     args.push(quote! { format!("{}", #arg_expr) });
                 }
+                FormatPart::DebugExpr(e) => {
+                    literal_parts.push(current.clone());
+                    current.clear();
+                    let arg_expr = self.emit_expr(e)?;
+                    args.push(quote! { format!("{:?}", #arg_expr) });
+                }
             }
         }
         literal_parts.push(current);
